@@ -30,8 +30,8 @@
 #define NR 2
 #endif
 #define AL 2                    /* address bytes */
-#define TAPE (NM + 3 * (AL + 2) + 8)
-#define EB (3 * (AL + 2) + 4)
+#define TAPE (NM + (NR + 1) * (AL + 2) + 8)
+#define EB ((NR + 1) * (AL + 2) + 4)
 
 char auto_qmail[] = "/var/qmail";
 
